@@ -2,8 +2,8 @@ package c09
 
 import (
 	"context"
-	"errors"
 	"crypto/sha256"
+	"errors"
 	"fmt"
 	"path/filepath"
 	"runtime"
